@@ -138,14 +138,24 @@ class PumpQueue:
         self.items = collections.deque()
         self.budget = 0
 
-    def put(self, x):
+    def put(self, x, block=True, timeout=None):
         self.items.append(x)
 
-    def get(self):
+    def get(self, block=True, timeout=None):
         if self.budget <= 0 or not self.items:
             return None
         self.budget -= 1
         return self.items.popleft()
+
+    def get_nowait(self):
+        import queue
+
+        if self.budget <= 0 or not self.items:
+            raise queue.Empty()
+        self.budget -= 1
+        return self.items.popleft()
+
+    put_nowait = put
 
     def qsize(self):
         return len(self.items)
@@ -304,6 +314,34 @@ class Rig:
 
     async def settle(self, pump=True):
         await settle(self, pump=pump)
+
+    async def req(self, filters, token=None, close=True):
+        """storage.subscribe the way web.start_client does; returns (events, eose_count, error).
+        Events are those queued before the (sub_id, None) sentinel."""
+        from nostr_relay.util import ClientID
+        from nostr_relay.errors import StorageError, AuthenticationError
+
+        cid = ClientID("10.9.9.9")
+        q = asyncio.Queue()
+        err = None
+        try:
+            await self.storage.subscribe(cid, "q", json.loads(json.dumps(filters)), q,
+                                         auth_token=token if token is not None else {})
+        except (StorageError, AuthenticationError) as e:
+            err = str(e)
+        await settle(self)
+        evs, eose = [], 0
+        while not q.empty():
+            sid, ev = q.get_nowait()
+            if ev is None:
+                eose += 1
+            elif eose == 0:
+                evs.append(ev_to_dict(ev))
+        if close:
+            await self.storage.unsubscribe(cid, "q")
+            await self.storage.unsubscribe(cid)
+            await settle(self)
+        return evs, eose, err
 
     async def dump(self):
         """All stored events, read below the relay. {id: event dict}"""
